@@ -82,6 +82,22 @@ def ctor_of(body):
                 m = mm.group(1)
         if m:
             return m
+    # the constructor written once in a small `const fn array_of(elem) -> Type` helper of the crate and called from the const body
+    # (possibly inside the promoted `&helper(T::TYPE)`)
+    crate = body.crate
+    helpers = [t['callee'] for blk, t in body.iter_terms('call') if t['callee'].get('local')]
+    for stmts in prom:
+        for st in stmts:
+            for mm in re.finditer(r'([A-Za-z_][\w:]*)::<[^>]*>\(|= ([A-Za-z_][\w:]*)\(', st):
+                nm = mm.group(1) or mm.group(2)
+                if nm:
+                    helpers.append({'def': nm, 'resolved': nm})
+    for c in helpers:
+        hb = crate.by_path.get(c.get('resolved') or c.get('def') or '') or crate.by_path.get((c.get('def') or '').split('::<')[0])
+        if hb is not None and hb is not body and hb.n <= 6:
+            inner = ctor_of(hb)
+            if inner and inner != 'inner':
+                return inner
     uses = [s for blk, i, s in body.iter_assigns() if s['rv']['k'] == 'use' and s['rv']['op'].get('k') == 'const']
     if uses and all('Type::TYPE' in (u['rv']['op'].get('def') or '') for u in uses) and not prom:
         return 'inner'
@@ -117,7 +133,9 @@ def check_impls(fx, rep, crate, cfg):
         # composite impls describe their own parameter
         if want in ('Optional', 'Array', 'Map', 'Map?', 'inner') and '<' in self_ty:
             params = [u['rv']['op'].get('def') or '' for blk, i, u in body.iter_assigns() if u['rv']['k'] == 'use' and u['rv']['op'].get('k') == 'const']
-            rep.check(any('Type::TYPE' in p for p in params), 'R16.1', key + '|element', body.where(), 'the element description is `<T as Type>::TYPE` of the impl\'s parameter',
+            params += [st for stmts in (body.d.get('promoted') or []) for st in stmts if re.search(r'Type(>)?::TYPE', st)]
+            params += [a.get('def') or '' for blk, t in body.iter_terms('call') for a in t['args'] if a.get('k') == 'const']
+            rep.check(any(re.search(r'Type(>)?::TYPE', p) for p in params), 'R16.1', key + '|element', body.where(), 'the element description is `<T as Type>::TYPE` of the impl\'s parameter',
                       'the element of `%s` is not described by its parameter\'s `<T as Type>::TYPE`' % self_ty)
     if n < (45 if cfg == 'full' else 20):
         rep.bad('R16.1', 'floor|%s' % cfg, '-', 'expected at least %d impls of introspect::Type in configuration %s, found %d: anchor lost' % (45 if cfg == 'full' else 20, cfg, n))
